@@ -50,6 +50,49 @@ def build(chk):
     c_wallProfile(chk)
     c_pressure_tail(chk)
     c_weight(chk)
+    c_updateGrid(chk)
+
+
+def c_updateGrid(chk):
+    """_updateGrid re-maps the grid to the wall it is about to integrate over.  Field i of the tanh ansatz varies over z/L_i + d_i in [-1, 1],
+    i.e. z in [(-1 - d_i) L_i, (1 - d_i) L_i]; the grid's wall region [c' - t, c' + t] (c' = centre + t ln2/2: the centre is moved to the peak
+    of d(m^2)/dz) is the ENVELOPE of these intervals: it contains every one of them and its two ends are attained."""
+    fn = f"{EOMQ}._updateGrid"
+    NFLD = 2
+    widths = [real(f"gw{f}") for f in range(NFLD)]
+    offs = [real(f"go{f}") for f in range(NFLD)]
+    vmid = real("velocityMid")
+
+    def mk(it):
+        grid = SymObj("Grid3Scales", "grid3Scales", label="grid", attrs={"smoothing": real("smoothing"), "ratioPointsWall": real("ratioPointsWall")})
+        eom = SymObj("EOM", "equationOfMotion", label="eom", attrs={"grid": grid, "meanFreePathScale": real("meanFreePathScale"), "includeOffEq": boolean("includeOffEq")})
+        wp = SymObj("WallParams", "containers", label="wallParams", attrs={"widths": as_array(widths), "offsets": as_array(offs)})
+        for c in [Gt(w, 0) for w in widths] + [Gt(vmid, -1), Lt(vmid, 1), Gt(real("smoothing"), 0), Gt(real("ratioPointsWall"), 0), Lt(real("ratioPointsWall"), 1),
+                                               Gt(real("meanFreePathScale"), 0)]:
+            it.assume(c)
+        return eom, [wp, vmid], {}, {}
+
+    def change(it, so, a, k):
+        it.event(kind="contract-call", name="changePositionFalloffScale", args=list(a), obj=so)
+    rets = sel(chk.summarize(MODULE, "EOM._updateGrid", mk, registry={"Grid3Scales.changePositionFalloffScale": change}))
+    if not rets:
+        chk.undecided.append("_updateGrid: no returning path")
+    for i, p in enumerate(rets):
+        calls = [e for e in p.events if e.get("name") == "changePositionFalloffScale"]
+        if len(calls) != 1 or len(calls[0]["args"]) != 4:
+            chk.vc(f"_updateGrid.one-remap-call.{i}", p.pc, sp.false, func=fn)
+            continue
+        tin, tout, t, c = calls[0]["args"]
+        cp = c + t * sp.log(2) / 2
+        right = [(1 - offs[f]) * widths[f] for f in range(NFLD)]
+        left = [(-1 - offs[f]) * widths[f] for f in range(NFLD)]
+        chk.vc(f"_updateGrid.wall-region-contains-every-field-wall.{i}", p.pc,
+               And(*[Le(r_, cp + t) for r_ in right], *[Ge(l_, cp - t) for l_ in left]), func=fn)
+        chk.vc(f"_updateGrid.wall-region-is-the-envelope.{i}", p.pc,
+               And(Or(*[Eq(r_, cp + t) for r_ in right]), Or(*[Eq(l_, cp - t) for l_ in left])), func=fn)
+        chk.canary(f"_updateGrid.envelope.{i}", p.pc, Eq(t, 0), func=fn)
+        lo_tail = t * (sym.R(1, 2) + sym.R(105, 100) * real("smoothing")) / real("ratioPointsWall")
+        chk.vc(f"_updateGrid.tails-long-enough-for-the-grid.{i}", p.pc, And(Ge(tin, lo_tail), Ge(tout, lo_tail)), func=fn)
 
 
 def c_weight(chk):
